@@ -1975,4 +1975,31 @@ theorem two_phase_deep_example :
   decide
 
 
+
+/-! ### nested and inline structures name the field that holds them (after /repo 8de2ad2, 3e97bbb) -/
+
+/-- the former counterexamples, kernel-checked on the model of today's code: `Outer(sr={'a': 'x'})`
+    for an inline `sr: StructureReference(a=Integer)` is reported under `Outer.sr` (plain shape: the
+    embedded class's own message is the problem text), also as an element of an Array (`arr_1`); the
+    helper recovers `Outer.sr` from the real text; deserializing `{'inner': {'x': 'a'}}` for a class
+    reference is reported under `inner` -/
+theorem fixed_nested_structure_examples :
+    let O : Oracles := exOracles
+    let sr : FieldDecl := .struct { name := "StructureReference_0", required := [], inline := true } [("a", .integer {})] []
+    let inner : FieldDecl := .struct { name := "Inner", required := [], accepts := ["Inner"] } [("x", .integer {})] []
+    let c : ClassOpts := { name := "Outer", required := [] }
+    let bad : PyVal := .dict [(.str "a", .str "x")]
+    ((sites O c [("sr", bad)] [("sr", sr)]).map fun s => (s.path, s.loc.shape)) = [("sr".toList, Shape.plain)] ∧
+    ((sites O c [("arr", .list [.dict [(.str "a", .int 1)], bad])] [("arr", .seqOf .list sr {})]).map
+        fun s => (s.path, s.loc.shape)) = [("arr_1".toList, Shape.plain)] ∧
+    (parseMsg asciiWord "Outer.sr: StructureReference_0.a: Expected <class 'int'>; Got 'x'".toList).field
+      = some "Outer.sr".toList ∧
+    (parseMsg asciiWord "Outer.sr: [\"StructureReference_0.a: Expected <class 'int'>; Got 'x'\"]".toList).field
+      = some "Outer.sr".toList ∧
+    p1SiteD O {} false [] "inner" inner (.dict [(.str "x", .str "a")]) =
+      some ⟨"inner", .named, some "inner".toList, .typeErr⟩ ∧
+    p1SiteD O {} false [] "sr" sr bad = some ⟨"sr", .named, some "sr: Got ".toList, .valueErr⟩ := by
+  decide
+
+
 end Typedpy.C18
